@@ -431,3 +431,77 @@ Example reconstruct_all_nonvacuous :
   | None => False
   end.
 Proof. vm_compute. repeat split; reflexivity. Qed.
+
+(* ---- render + flush of one frame is one critical section of the DataBuffer lock ----
+   ModelFlush.v splits the atomic action "group g renders and flushes" of the executor the way
+   resolveDeferSingle is written -- Lock; write the frame (ResolveDeferBatch / ResolveDeferError);
+   Flush; Unlock -- over a writer that hands over, at each Flush, everything written since the previous
+   one.  [faithful] is the discipline of the code (every group flushes before it unlocks). *)
+From Gv Require Import C10.ModelFlush C10.ProofsFlush.
+
+(* At every point of every interleaving of the lock-level steps: every Flush so far has handed over
+   exactly one frame ([w_flushed] is the list of singletons of a prefix of the frames), in the order in
+   which the lock was taken (the order of [g_frames]); at most one frame is written and not flushed, and
+   none when the lock is free. *)
+Theorem flush_one_frame : forall descs root tree data mtr k G W,
+  mrun descs root faithful mtr (minit descs root tree data) = Some (k, G, W) ->
+  exists pre, g_frames G = pre ++ w_buf W /\ w_flushed W = map single pre /\
+              (length (w_buf W) <= 1)%nat /\ (w_lock W = None -> w_buf W = [] /\ w_unflushed W = []).
+Proof. exact flush_one_frame_l. Qed.
+Print Assumptions flush_one_frame.
+
+(* A finished lock-level run (tree done, everybody flushed and unlocked) of a defer_plan_wf plan: the
+   flushes are exactly the frames of the run of the executor LTS underneath (stream_wellformed's trace),
+   one per Flush, the checker of the Flush boundaries accepts them -- in particular no Flush comes after
+   the frame with hasNext:false -- and the concatenation is a well-formed stream. *)
+Theorem flush_stream_wellformed : forall descs root tree data mtr k G W,
+  defer_plan_wf descs root tree = true ->
+  mrun descs root faithful mtr (minit descs root tree data) = Some (k, G, W) ->
+  mdone (k, G, W) = true ->
+  w_flushed W = map single (g_frames G) /\
+  exec descs root tree data (macro mtr) = Some (g_frames G) /\
+  flushes_ok_b (map (map fr_sum) (w_flushed W)) = true /\
+  stream_ok_b (map fr_sum (concat (w_flushed W))) = true.
+Proof. exact flush_stream_wellformed_l. Qed.
+Print Assumptions flush_stream_wellformed.
+
+(* non-vacuity: the example plan, groups 3 and 1 fetch concurrently, 3 takes the lock first *)
+Definition ex_mtrace : list maction :=
+  [MStep (AFetch 3); MStep (AFetch 1); MStep (ARender 3); MFlush 3; MUnlock 3;
+   MStep (ARender 1); MStep (AFetch 2); MFlush 1; MUnlock 1; MStep (ARender 2); MFlush 2; MUnlock 2].
+Example flush_one_frame_nonvacuous :
+  match mrun ex_descs ex_root faithful ex_mtrace (minit ex_descs ex_root ex_tree ex_data) with
+  | Some (k, G, W) => mdone (k, G, W) = true /\ map (@length frame) (w_flushed W) = [1; 1; 1; 1]%nat
+  | None => False
+  end.
+Proof. vm_compute. split; reflexivity. Qed.
+
+(* The variant in which one group releases the lock BEFORE it flushes (lock; write; unlock -- in a helper --
+   and the Flush in the caller) breaks it, on a defer_plan_wf plan with two sibling defers: the sibling takes
+   the lock in between, one Flush hands over two frames and the late Flush hands over nothing, after the final
+   frame.  (Seeded regression C10-m8: the hard-fetch-error branch of resolveDeferSingle.) *)
+Definition ex5_root : dnode :=
+  DObj [] false [81] []
+    [DFld [97] None None None (ex_leaf [97]);
+     DFld [98] None None (Some 1) (ex_leaf [98]);
+     DFld [101] None None (Some 2) (ex_leaf [101])].
+Definition ex5_descs : list ddesc :=
+  [{| dd_id := 1; dd_parent := 0; dd_label := []; dd_path := [] |};
+   {| dd_id := 2; dd_parent := 0; dd_label := []; dd_path := [] |}].
+Definition ex5_data : json := JObj [([97], JStr [120]); ([98], JStr [121]); ([101], JStr [122])].
+
+Theorem flush_one_frame_refuted : exists descs root tree data early mtr k G W,
+  defer_plan_wf descs root tree = true /\
+  mrun descs root early mtr (minit descs root tree data) = Some (k, G, W) /\
+  mdone (k, G, W) = true /\
+  map (@length frame) (w_flushed W) = [1; 2; 0]%nat /\
+  flushes_ok_b (map (map fr_sum) (w_flushed W)) = false.
+Proof.
+  exists ex5_descs, ex5_root, (Some (TPar [TSingle 1; TSingle 2])), ex5_data, (fun g => g =? 1),
+    [MStep (AFetch 1); MStep (AFetch 2); MStep (ARender 1); MUnlock 1;
+     MStep (ARender 2); MFlush 2; MUnlock 2; MFlush 1].
+  eexists; eexists; eexists.
+  split; [vm_compute; reflexivity |]. split; [vm_compute; reflexivity |].
+  split; [vm_compute; reflexivity |]. split; vm_compute; reflexivity.
+Qed.
+Print Assumptions flush_one_frame_refuted.
